@@ -213,8 +213,32 @@ def systematic(rng):
     P(E(G.call([{"k": "scopename", "s": "o"}, E(G.call([{"k": "scopename", "s": "i"}, E(G.call([{"k": "breakout", "s": "i", "x": n(1)}])), M(n(2))])), M(n(3))])), M(n(4)))
     # lazy evaluation
     for l in (True, False):
-        for op in ("&&", "||"):
-            P(M({"k": "lazy", "op": op, "l": b(l), "body": [M(n(1)), E(b(True))]}), M(n(2)))
+        for op, sp in (("&&", "&&"), ("||", "||"), ("&&", "and"), ("||", "or")):
+            for rv in (True, False):
+                P(M({"k": "lazy", "op": op, "sp": sp, "l": b(l), "body": [M(n(1)), E(b(rv))]}), M(n(2)))
+            P(M({"k": "bin", "op": op, "sp": sp, "l": b(l), "r": b(not l)}))
+        # as the guard of count and as the condition of while
+        P(M({"k": "fcount", "arr": A(n(3), n(0), n(5)), "body": [E({"k": "lazy", "op": "||", "sp": "or" if l else "||", "l": G.binop("==", v("_x"), n(0)), "body": [M(v("_x")), E(G.binop("<", v("_x"), n(4)))]})]}))
+        P(G.assign("gW", n(0)), {"k": "while", "c": [E({"k": "lazy", "op": "&&", "sp": "and" if l else "&&", "l": G.binop("<", v("gW"), n(2)), "body": [M(n(5)), E(b(True))]})], "body": [G.assign("gW", G.binop("+", v("gW"), n(1))), M(v("gW"))]}, M(n(9)))
+    # the value of a block whose last statement is a loop: while yields nothing, for / forEach the value of the last pass
+    def loops():
+        yield [G.assign("gW", n(0)), {"k": "while", "c": [E(G.binop("<", v("gW"), n(3)))], "body": [G.assign("gW", G.binop("+", v("gW"), n(1))), E(G.binop("*", v("gW"), n(10)))]}]
+        yield [G.assign("gW", n(0)), {"k": "while", "c": [M(n(100)), E(G.binop("<", v("gW"), n(2)))], "body": [G.assign("gW", G.binop("+", v("gW"), n(1))), E(v("gW"))]}]
+        yield [{"k": "while", "c": [E(b(False))], "body": [E(n(99))]}]
+        yield [{"k": "for", "var": "_i", "from": n(0), "to": n(2), "body": [E(G.binop("*", v("_i"), n(10)))]}]
+        yield [{"k": "for", "var": "_i", "from": n(2), "to": n(0), "body": [E(n(99))]}]
+        yield [{"k": "foreach", "body": [E(G.binop("*", v("_x"), n(10)))], "arr": A(n(1), n(2))}]
+        yield [{"k": "foreach", "body": [E(n(99))], "arr": A()}]
+        yield [{"k": "foreach", "body": [G.assign("gA", v("_x"))], "arr": A(n(1), n(2))}]
+    for lp in loops():
+        P(M(A(n(7), G.call([E(n(5))] + lp))), M(n(9)))
+        P(M(A(n(7), {"k": "if", "c": b(True), "th": [E(n(5))] + lp, "el": [E(n(0))]})), M(n(9)))
+        P(M(A(n(7), {"k": "if", "c": b(False), "th": [E(n(0))], "el": lp})), M(n(9)))
+        P(M(A(n(7), {"k": "try", "body": lp, "handler": [E(n(0))]})), M(n(9)))
+        P(M(A(n(7), {"k": "try", "body": [{"k": "throw", "x": n(1)}], "handler": [E(n(5))] + lp})), M(n(9)))
+        P(M(A(n(7), {"k": "switch", "v": n(1), "body": [{"k": "case", "x": n(1), "body": [E(n(5))] + lp}]})), M(n(9)))
+        P(M(A(n(7), G.call([{"k": "exitwith", "c": b(True), "body": [E(n(5))] + lp}, E(n(6))]))), M(n(9)))
+        P({"k": "foreach", "body": [M(A(v("_x"), G.call(lp)))], "arr": A(n(0), n(1))}, M(n(9)))
     # call: value, _this
     P(M(G.call([E(n(1)), E(n(2))])), M({"k": "isnilc", "body": [E(G.call([G.assign("gA", n(1))]))]}), M({"k": "callw", "arg": n(5), "body": [E(G.binop("+", v("_this"), n(1)))]}))
     P(M({"k": "callw", "arg": n(5), "body": [E(G.call([E(v("_this"))]))]}))
@@ -328,7 +352,7 @@ def run(rep, tier, seed, replay):
         "the reference semantics is my reading of the property statement and DESIGN.md appendix A (integers, booleans, strings, arrays by value)",
         "observations: the marker log (diag_log str x) and the script's final value ('Context dropped with return value'); values of constructs are observed through marker statements",
         "negative zero is printed as 0 (the reference computes on integers)",
-        "generated programs are type-correct and terminating; the values of while loops are not observed (the statement does not fix them)",
+        "generated programs are type-correct and terminating",
     ]
     if replay:
         c = json.load(open(replay))["case"]
